@@ -47,11 +47,16 @@ access(all) entitlement E2
 access(all) struct interface I1 {}
 access(all) struct interface I2 {}
 access(all) struct interface I3: I1 {}
+access(all) struct interface I4: I3 {}
 access(all) resource interface RI {}
+access(all) resource interface RI2: RI {}
+access(all) resource interface RI3: RI2 {}
 access(all) struct S: I1, I3 {}
 access(all) struct S2: I2 {}
 access(all) resource R: RI {}
 access(all) resource R2 {}
+access(all) struct S3: I4 {}
+access(all) resource R3: RI3 {}
 access(all) enum En: UInt8 { access(all) case a }
 access(all) attachment At for R {}
 access(all) attachment As for S {}
@@ -222,7 +227,7 @@ func termIsResource(t *TT) bool {
 		return n == "AnyResource" || n == "AnyResourceAttachment"
 	case "nom":
 		switch t.name() {
-		case "R", "R2", "RI", "At":
+		case "R", "R2", "R3", "RI", "RI2", "RI3", "At":
 			return true
 		}
 	case "opt", "varr", "carr":
@@ -231,7 +236,7 @@ func termIsResource(t *TT) bool {
 		return termIsResource(t.VT)
 	case "inter":
 		for _, i := range t.S {
-			if i == "RI" {
+			if i == "RI" || i == "RI2" || i == "RI3" {
 				return true
 			}
 		}
